@@ -64,14 +64,22 @@ LEVELS = {
 }
 RATIOS = {'PR': 10, 'AR': 20}           # B <-> ratio: k*log10(ratio) decibel ; Np = ln(AR) = ln(PR)/2
 LOGLOG = [('BW', 'Bm'), ('BW', 'BmW'), ('Bm', 'BmW'), ('BV', 'BuV')]     # documented level<->level pairs
-LIN_PREFIXES = ['', 'm', 'k', 'u', 'M']
+LIN_PREFIXES = ['', 'm', 'k', 'u', 'M']      # fixed core, enumerated by every run
+NWINDOWS = 5                                 # the other admissible prefixes of W, V, A, Ohm, Pa: 5 windows of 3;
+                                             # quick enumerates window VERIF_SEED % 5 completely, thorough all of them
 T_VALUES = [-40, 0, 0.001, 100, 273.15, 1e4]
 LEVEL_VALUES = [-30, 0, 3, 20, 94, 120]
 LIN_VALUES = [1e-12, 0.02, 1, 50, 1e3]
 SUM_VALUES = [0, 1, 2, 83, 87]
+# further magnitudes enumerated by the thorough tier only
+T_MORE = [37, 451.5, 5778]
+LEVEL_MORE = [-120, -3, 1, 10, 60]
+LIN_MORE = [1e-6, 7.3, 1e6]
+SUM_MORE = [10, 30]
 
-_CASES = None
+_CASES = {}
 _PREF = None
+_LINP = None
 
 
 def init_worker():
@@ -98,6 +106,20 @@ def init_worker():
     for s in ('Cel', 'degF', 'degR', 'AR', 'PR'):
         if adm(s):
             raise HarnessError("%s admits prefixes %r" % (s, adm(s)))
+    global _LINP
+    _LINP = [p for p in allp if p not in LIN_PREFIXES and p != 'da']
+    for s in ('W', 'V', 'A', 'Ohm', 'Pa'):
+        if sorted(adm(s)) != sorted(allp):
+            raise HarnessError("%s does not admit every prefix: %r" % (s, adm(s)))
+    if len(_LINP) != 3 * NWINDOWS:
+        raise HarnessError("prefix windows do not tile the prefix list: %r" % (_LINP,))
+
+
+def lin_prefixes(tier, seed):
+    if tier == "thorough":
+        return LIN_PREFIXES + _LINP
+    w = seed % NWINDOWS
+    return LIN_PREFIXES + _LINP[3 * w:3 * w + 3]
 
 
 def _stable(x):
@@ -221,10 +243,14 @@ def level_to_level(x, u, v):
 
 
 # ------------------------------------------------------------------------------------------- enumeration
-def cases():
-    global _CASES
-    if _CASES is not None:
-        return _CASES
+def cases(tier, seed):
+    key = (tier, seed % NWINDOWS)
+    if key in _CASES:
+        return _CASES[key]
+    linp = lin_prefixes(tier, seed)
+    more = tier == "thorough"
+    T_VALUES_, LEVEL_VALUES_ = T_VALUES + (T_MORE if more else []), LEVEL_VALUES + (LEVEL_MORE if more else [])
+    LIN_VALUES_, SUM_VALUES_ = LIN_VALUES + (LIN_MORE if more else []), SUM_VALUES + (SUM_MORE if more else [])
     out = []
     seen = set()
 
@@ -236,7 +262,7 @@ def cases():
     tunits = ['K', 'Cel', 'degF', 'degR'] + [p + 'K' for p in _PREF['K']]
     for u in tunits:
         for v in tunits:
-            for x in T_VALUES:
+            for x in T_VALUES_:
                 if x < 0 and t_split(u)[1] in ('K', 'degR'):
                     continue
                 add('temp', u, v, x)
@@ -247,50 +273,50 @@ def cases():
         return [b] + [p + b for p in _PREF[b]]
     pairs = []
     for lb, (k, lin, ref) in LEVELS.items():
-        lins = [p + lin for p in LIN_PREFIXES]
+        lins = [p + lin for p in linp]
         pairs += [(lu, vu) for lu in lspell(lb) for vu in lins]
     for lb in ('B', 'Np'):
         pairs += [(lu, vu) for lu in lspell(lb) for vu in ('PR', 'AR')]
     for lu, vu in pairs:
-        for x in LEVEL_VALUES:
+        for x in LEVEL_VALUES_:
             add('log-lin', lu, vu, x)
             add('log-lin-rt', lu, vu, x)
-        for x in LIN_VALUES:
+        for x in LIN_VALUES_:
             add('log-lin', vu, lu, x)
             add('log-lin-rt', vu, lu, x)
     for lb in ('Bm', 'BmW', 'BW'):
         for lu in lspell(lb):
-            for x in LEVEL_VALUES:
+            for x in LEVEL_VALUES_:
                 add('log-frac', lu + '/Hz', 'W/Hz', x)
-            for x in LIN_VALUES:
+            for x in LIN_VALUES_:
                 add('log-frac', 'W/Hz', lu + '/Hz', x)
     # level <-> level
     for b in ['B', 'Np'] + list(LEVELS):
         for u in lspell(b):
             for v in lspell(b):
-                for x in LEVEL_VALUES:
+                for x in LEVEL_VALUES_:
                     add('log-log', u, v, x)
     for a, b in LOGLOG:
         for u in lspell(a):
             for v in lspell(b):
-                for x in LEVEL_VALUES:
+                for x in LEVEL_VALUES_:
                     add('log-log', u, v, x)
                     add('log-log', v, u, x)
     for u in lspell('B'):
         for v in lspell('Np'):
-            for x in LEVEL_VALUES:
+            for x in LEVEL_VALUES_:
                 for s, t in ((u, v), (v, u)):
                     add('log-direct', s, t, x)
                     add('log-direct-rt', s, t, x)
     # level arithmetic
     for b in ['B'] + list(LEVELS):
         for u in lspell(b):
-            for x in SUM_VALUES:
-                for y in SUM_VALUES:
+            for x in SUM_VALUES_:
+                for y in SUM_VALUES_:
                     add('level-sum', u, x, y)
                     if x > y:
                         add('level-diff', u, x, y)
-    _CASES = out
+    _CASES[key] = out
     return out
 
 
@@ -477,13 +503,13 @@ def _short(msg):
 
 
 def plan(tier, seed):
-    return [(i, NSHARDS) for i in range(NSHARDS)]      # the whole space is small: both tiers enumerate all of it
+    return [(i, NSHARDS, tier, seed) for i in range(NSHARDS)]
 
 
 def run_shard(desc):
-    k, n = desc
+    k, n, tier, seed = desc
     sh = Shard(PROPERTY)
-    allc = cases()
+    allc = cases(tier, seed)
     for c in allc[k::n]:
         rec = check_case(c)
         sh.evaluations += 1
@@ -523,20 +549,26 @@ def finish(total, tier, seed):
         raise HarnessError("shards did not cover the case list exactly once: %r vs %r"
                            % (total.evaluations, total.extra.get("cases_total")))
     return dict(cases_per_subcheck=per, tolerance=dict(rel=REL, identity_rel=REL_ID),
-                bounds=dict(temperature_values=T_VALUES, level_values=LEVEL_VALUES, linear_values=LIN_VALUES,
-                            sum_values=SUM_VALUES, linear_prefixes=LIN_PREFIXES, kelvin_prefixes=len(_PREF['K'])),
-                window="none (the whole space is enumerated in both tiers)", caps_hit=[])
+                bounds=dict(temperature_values=T_VALUES + (T_MORE if tier == "thorough" else []),
+                            level_values=LEVEL_VALUES + (LEVEL_MORE if tier == "thorough" else []),
+                            linear_values=LIN_VALUES + (LIN_MORE if tier == "thorough" else []),
+                            sum_values=SUM_VALUES + (SUM_MORE if tier == "thorough" else []), linear_prefixes=lin_prefixes(tier, seed),
+                            kelvin_prefixes=len(_PREF['K'])),
+                window=("all %d prefix windows" % NWINDOWS) if tier == "thorough" else
+                       "linear-side prefix window %d of %d (plus the fixed core); everything else is enumerated "
+                       "completely by every run" % (seed % NWINDOWS, NWINDOWS), caps_hit=[])
 
 
 MANIFEST = dict(
     text="Complete enumeration on the real library of: all ordered pairs (identity included) of K, Cel, degF, degR and "
-         "19 prefixed kelvins x 5-6 magnitudes, forward against the exact affine formulas and there-and-back; every "
-         "documented level<->linear pair (Np, B, dBm, dBmW, dBW, dBV, dBuV, dBA, dBuA, dBOhm, dBSPL, dBSIL, dBSWL) with "
-         "every admissible level prefix and linear prefixes {none,m,k,u,M} x 6 levels / 5 linear magnitudes against "
-         "k*log10(x/ref) / ln, both directions and there-and-back; identity and prefix change of every level unit; the "
-         "documented level<->level pairs; B<->Np directly against the composition through AR and PR; a+b and a-b (a>b) "
-         "for every bel/decibel unit over {0,1,2,83,87}^2 against the power sum. About 2.7e4 cases, all executed in both "
-         "tiers.",
+         "19 prefixed kelvins x 5-6 magnitudes (thorough 8-9), forward against the exact affine formulas and there-and-"
+         "back; every documented level<->linear pair (Np, B, dBm, dBmW, dBW, dBV, dBuV, dBA, dBuA, dBOhm, dBSPL, dBSIL, "
+         "dBSWL) with every admissible level prefix and linear prefixes {none,m,k,u,M} plus one seed-selected window of 3 "
+         "further prefixes (thorough: all 19) x 6 levels / 5 linear magnitudes (thorough 11 / 8) against k*log10(x/ref) "
+         "and ln, both directions and there-and-back; the documented dBm/Hz fraction form; identity and prefix change of "
+         "every level unit; the documented level<->level pairs; B<->Np directly against the composition through AR and "
+         "PR; a+b and a-b (a>b) for every bel/decibel unit over {0,1,2,83,87}^2 (thorough 7 values) against the power "
+         "sum.  10 941 cases per quick run, 28 507 in the thorough tier, every one executed.",
     note="Numerical agreement to 1e-9 relative (identity 1e-12), not bit-exact; magnitudes are a finite alphabet of "
          "representatives, other magnitudes rely on the formulas being value-independent; prefix `da`, undocumented "
          "level pairs and compound expressions beyond X/Hz are outside the alphabet; oracle formulas are hand-written "
